@@ -230,7 +230,40 @@ def ob_allow_list(report):
             fresh = z3.Not(z3.Or([x == e for e in el.fields])) if el.fields else z3.BoolVal(True)
             ex.store(p, call.args[0], s_.with_ov('elements', Agg('[]', None, tuple(el.fields) + (x,), 'array')))
             k(p, fresh)
+        def m_wrap_new(ex, p, call, k):
+            # Arc::new / Mutex::new / RwLock::new around the list: the wrapper carries the list (std contract: a lock gives access to the value it was built with)
+            v = call.args[0]
+            if call.short.endswith('Arc::new') or '::Arc::' in call.short:
+                return k(p, v)
+            k(p, Sym(f'lock{p.seq("lock")}', call.retty).with_ov('inner', v))
+
+        def m_lock(ex, p, call, k):
+            m_ = ex.deref(p, call.args[0]) if isinstance(call.args[0], Ptr) else call.args[0]
+            inner = m_.get_ov('inner') if isinstance(m_, Sym) else None
+            if inner is None:
+                return NotImplemented
+            cell = ('H', f'locked({vname(m_)})', '')
+            p.mem[cell] = inner
+            guard = Sym(f'guard{p.seq("guard")}', 'MutexGuard').with_ov('cell', Ptr(cell, (), True))
+            meth = call.short.rsplit('::', 1)[-1]
+            if meth.startswith('try_'):
+                q = p.clone()
+                q.events.append(Event('lock-busy', call.short, ()))
+                k(q, MD.err(Sym('would_block', 'TryLockError')))          # another holder (a concurrent request on a clone of the service) has the lock
+            k(p, MD.ok(guard))
+
+        def m_guard_deref(ex, p, call, k):
+            g = ex.deref(p, call.args[0]) if isinstance(call.args[0], Ptr) else call.args[0]
+            c = g.get_ov('cell') if isinstance(g, Sym) else None
+            if c is None:
+                return NotImplemented
+            k(p, c)
+
+        def m_arc_deref(ex, p, call, k):
+            k(p, call.args[0])
         models = [(r'Request::peer_id$', m_peer_id), (r'as IntoResponse>::into_response$', m_into_response), (r'Iterator>::map$', m_iter_map), (r'(HashMap|BTreeMap)::get$', m_assoc_get),
+                  (r'(^|::)(Arc|Mutex|RwLock)(::<.*>)?::new$', m_wrap_new), (r'(Mutex::(lock|try_lock)|RwLock::(read|write|try_read|try_write))$', m_lock),
+                  (r'<(\w+::)*(MutexGuard|RwLockReadGuard|RwLockWriteGuard) as Deref(Mut)?>::deref(_mut)?$', m_guard_deref), (r'<(\w+::)*Arc as Deref>::deref$', m_arc_deref),
                   (r' as Iterator>::next$', m_fin_next), (r'(HashSet|BTreeSet)::(new|with_capacity|default)$|<(\w+::)*(HashSet|BTreeSet) as Default>::default$', m_set_new),
                   (r'(HashSet|BTreeSet)::insert$', m_set_insert),
                   (r'(HashSet|BTreeSet|Vec|slice)::contains$|HashSet::get$', m_contains), (r'(HashSet|BTreeSet|Vec|slice)::(is_empty|len)$', m_size),
@@ -291,8 +324,11 @@ def ob_allow_list(report):
                 cex = {'sender_present': z3.is_true(m.eval(has, True)), 'sender': '%064x' % m.eval(sender, True).as_long(),
                        'list': ['%064x' % m.eval(e_, True).as_long() for e_ in elems],
                        'listed': z3.is_true(m.eval(member, True)), 'outcome': cls} if m is not None else {}
-                o = viol(ob, [ex], f'allow-list outcome `{cls}` outside its condition: {cex}', f'allow-{cls}', {'counterexample': cex, **path_summary(r)}, len(outs))
-                if cex:
+                busy = any(e.kind == 'lock-busy' for e in q.events)
+                if busy:
+                    cex['schedule'] = 'the lock around the allow-list is held by a concurrent request (try_lock/try_read fails)'
+                o = viol(ob, [ex], f'allow-list outcome `{cls}` outside its condition: {cex}', f'allow-{cls}' + ('-lock-busy' if busy else ''), {'counterexample': cex, **path_summary(r)}, len(outs))
+                if cex and not busy:      # a schedule (lock contention) cannot be re-run by the sequential native test: reported as found
                     import kani
                     kani.confirm_natively(o, PROP, 'auth', 'verif_replay_c20_allow_list',
                                           {'VERIF_CEX_LIST': ','.join(cex['list']), 'VERIF_CEX_SENDER': cex['sender'] if cex['sender_present'] else ''}, 'allow-list and sender')
